@@ -68,6 +68,11 @@ def run(ck: Check):
             dims = 3 if "3d" in kind else 2
             model = nets.make_stack(rng, dims=dims, param="walsh" if "walsh" in kind else "raw", max_in=12,
                                     tau=rng.choice([1.0, 4.0]))
+        if t % 3 == 0 and isinstance(model[-1], GroupSum):
+            # the temperature of the group sum assigned after construction: the current attribute is what divides the counts
+            with torch.no_grad():
+                model(torch.zeros(1, *nets.extract(model)["input_shape"]))
+            model[-1].tau = rng.choice([8.0, 0.5, 16.0])     # dyadic: count / tau is exact in binary32
         if t % 4 == 1:     # logits that tie under exp rounding
             for m in model:
                 if isinstance(m, LogicDense) and m.parametrization == "raw":
